@@ -151,6 +151,23 @@ def tm_rows():
                 'SSECustomerKey': VALUES['SSECustomerKey'], 'ACL': 'private'}, ops)
             for a in NOT_ALLOWED + ['MFA', 'ChecksumMode']:
                 add('copy', mode, known, {a: 'x'}, [], expect='rejected')
+    # ... and for two copies: a multipart copy adds a CopySourceRange per part, which
+    # must stay in the per-request arguments and not reach the caller's dict
+    for first_mode, first_given, second_mode, update in (
+            ('multipart', {'RequestPayer': VALUES['RequestPayer']}, 'single', {}),
+            ('multipart', {}, 'single', {}),
+            ('multipart', {'SSECustomerKey': VALUES['SSECustomerKey'],
+                           'SSECustomerAlgorithm': VALUES['SSECustomerAlgorithm']}, 'multipart', {}),
+            ('multipart', {'ExpectedBucketOwner': VALUES['ExpectedBucketOwner']}, 'multipart',
+             {'ACL': 'private'}),
+            ('single', {'RequestPayer': VALUES['RequestPayer']}, 'multipart', {})):
+        given2 = dict(first_given)
+        given2.update(update)
+        rows.append(dict(fe='tm', method='copy', mode=second_mode, known=True,
+                         given=given2, ops=cp_ops[second_mode], expect='ok',
+                         defaults=False,
+                         seq=dict(first_method='copy', first_mode=first_mode,
+                                  first_given=first_given, update=update)))
     for a in TM.ALLOWED_DELETE_ARGS:
         add('delete', 'single', True, {a: VALUES[a]}, ['DeleteObject'])
     # the same routing with debug logging switched on (code that runs only
@@ -184,9 +201,13 @@ def run_tm_row(row):
     xkey = 'k0'
     if row.get('seq'):
         q = row['seq']
-        t1 = {'kind': 'upload', 'src': 'path',
+        t1 = {'kind': q.get('first_method', 'upload'),
               'size': 3 if q['first_mode'] == 'single' else 5,
               'extra_args': dict(q['first_given']), 'extra_ref': 'shared'}
+        if t1['kind'] == 'upload':
+            t1['src'] = 'path'
+        else:
+            t1['subs'] = [{'provide_size': t1['size']}]
         t2 = dict(t, extra_args={}, extra_ref='shared', extra_update=dict(q['update']))
         sc['transfers'] = [t1, t2]
         sc['cfg'] = {'S': 1}
